@@ -897,7 +897,11 @@ func (e *Env) evalCall(n *ast.CallExpr) Val {
 			e.fail("unboxRef(x, \"type\")")
 		}
 		name, _ := strconv.Unquote(lit.Value)
-		tag := e.x.prog.typeTagByName(name)
+		ut := e.x.prog.resolveGoType(e.pkg, name)
+		if ut == nil {
+			e.fail("unboxRef: unknown type %q", name)
+		}
+		tag := e.x.prog.typeTag(ut)
 		return Val{C: []*T{App(fmt.Sprintf("ipay_%d_0", tag), SInt, arg(0).T())}}
 	case "ifaceStr":
 		// ifaceStr(x): the string boxed in interface value x
@@ -956,7 +960,11 @@ func (e *Env) evalCall(n *ast.CallExpr) Val {
 			e.fail("typeis(x, \"type\")")
 		}
 		name, _ := strconv.Unquote(lit.Value)
-		return boolVal(Eq(App("itype", SInt, arg(0).T()), IntLit(int64(e.x.prog.typeTagByName(name)))))
+		tt := e.x.prog.resolveGoType(e.pkg, name)
+		if tt == nil {
+			e.fail("typeis: unknown type %q", name)
+		}
+		return boolVal(Eq(App("itype", SInt, arg(0).T()), IntLit(int64(e.x.prog.typeTag(tt)))))
 	}
 	if fname != "" {
 		if p, ok := e.x.prog.contracts.Pures[fname]; ok {
